@@ -122,7 +122,7 @@ func structMutate(rng *rand.Rand, v any, budget *int) any {
 		}
 		if *budget > 0 && rng.Intn(20) == 0 {
 			*budget--
-			out[[]string{"extra", "name", "kind", "containerEdits", "devices", "annotations", "hostPath"}[rng.Intn(7)]] = crashValues[rng.Intn(len(crashValues))]
+			out[[]string{"extra", "name", "kind", "containerEdits", "devices", "annotations", "hostPath", "", "\n"}[rng.Intn(9)]] = crashValues[rng.Intn(len(crashValues))]
 		}
 		return out
 	case []any:
@@ -169,6 +169,27 @@ func (crashStream) Generate(rng *rand.Rand, tier string, emit func(Case)) {
 	}
 	for _, s := range crashSeedsYAML {
 		emit(Case{"op": "file", "ext": ".yaml", "data": hx(s)})
+	}
+	// annotation maps with keys the schema's patternProperties do not cover and values of every type,
+	// at Spec and device level, in both encodings
+	for _, key := range []string{"", "\n", " ", "a", "a.b/c"} {
+		for _, val := range []any{1, 1.5, true, nil, []any{}, []any{"x"}, map[string]any{}, map[string]any{"a": "b"}, "ok"} {
+			for level := 0; level < 2; level++ {
+				var doc map[string]any
+				_ = json.Unmarshal([]byte(crashSeedsJSON[0]), &doc)
+				ann := map[string]any{key: val}
+				if level == 0 {
+					doc["annotations"] = ann
+				} else {
+					doc["devices"].([]any)[0].(map[string]any)["annotations"] = ann
+				}
+				b, _ := json.Marshal(doc)
+				emit(Case{"op": "file", "ext": ".json", "data": hex.EncodeToString(b)})
+				if y, err := jsonToYAML(b); err == nil {
+					emit(Case{"op": "file", "ext": ".yaml", "data": hex.EncodeToString(y)})
+				}
+			}
+		}
 	}
 	var batch []any
 	for i := 0; i < n; i++ {
